@@ -53,7 +53,7 @@ WCallCtl(op) ==
   /\ wpend' = [op |-> op]
   /\ UNCHANGED <<written, next, parked, skipOk, everFailed, wret, dropped>>
 
-\* One sink.write(offered bytes) call. kind: "n" (accepted n >= 1 bytes), "intr" (Interrupted),
+\* One call of the sink. kind: "n" (write / write_vectored accepted n >= 1 bytes), "intr" (Interrupted), "flush",
 \* "zero" (Ok(0): write_all turns it into a WriteZero error), "err" (any other error).
 \* `bytes` are the accepted bytes.
 WSink(kind, n, bytes) ==
@@ -70,7 +70,7 @@ WSink(kind, n, bytes) ==
              /\ next' = p + n
              /\ skipOk' = IF p # next THEN FALSE ELSE skipOk
         /\ UNCHANGED <<parked, everFailed>>
-     \/ /\ kind = "intr"
+     \/ /\ kind \in {"intr", "flush"}          \* an interrupted write; a flush of the sink: a call, but no data
         /\ UNCHANGED <<next, parked, skipOk, everFailed>>
      \/ /\ kind \in {"zero", "err"}
         /\ parked' = TRUE /\ skipOk' = TRUE /\ everFailed' = TRUE
